@@ -75,7 +75,10 @@ NextGen(c, r) == IF r = 1 THEN SeekX(VFor(c), IndexOfSeed(FirstSeed(c))) ELSE St
 
 RowClause(c, r) ==
   IF ~RowInUnit(c, r) THEN "UnitCube"
-  ELSE IF c.method = "sobol" /\ c.rows[r] # NextGen(c, r) THEN "SobolValue"
+  \* the point of this seed: in the Gray-code enumeration the generator module walks, or in the natural one (the statement
+  \* fixes the point set of every leading block of 2^m, not the order inside it)
+  ELSE IF c.method = "sobol" /\ c.rows[r] # NextGen(c, r)
+          /\ c.rows[r] # NaturalX(VFor(c), IndexOfSeed(FirstSeed(c)) + r - 1) THEN "SobolValue"
   ELSE IF ~Consistent(memo, KeyOf(c, r), PointOf(c, r)) THEN "Deterministic"
   ELSE ""
 
